@@ -10,18 +10,31 @@
     `pwTree t`   sibling nodes are told apart by what their directory is named after: sections by
                  FileOrder, volumes and BIOS paddings by offset, regions by name and base
                  (sibling *files* need nothing: the running index separates them);
-    `okTree t`   GUIDs have 16 bytes, no NVAR store (not modelled), a section with children is rebuilt
-                 from them, a volume with files has `DataOffset ≤ len(buf) ≤ Length`;
+    `okTree t`   GUIDs have 16 bytes, no NVAR store (the round-trip theorems are stated for trees without
+                 store; path uniqueness and the store-level round trip cover stores, see the follow-up
+                 sections below), a section with children is rebuilt from them, a volume with files has
+                 `DataOffset ≤ len(buf) ≤ Length`;
     `TopPol p t` every top-level volume has erase polarity `p` (and a flash image has a BIOS region) —
                  what a successful `uefi.Parse` leaves in `Attributes.ErasePolarity`.
   A tree produced by `uefi.Parse` has all three (FianoModel/Uefi/ExtractParse.lean): section "parsed
   images" below states the theorems directly for every accepted byte string.
+  Follow-up wp-c07b: `savedOkAll h t st` (decidable, on the tree the first `Assemble` pass wrote; proved
+  for C01's grammar) is the side condition of the fixed-point theorem that turns "two passes" into
+  "the direct save"; NVAR stores; per-field end-to-end edit theorems.
 -/
 import FianoModel.Uefi.ExtractPaths
 import FianoModel.Uefi.ExtractLoad
 import FianoModel.Uefi.ExtractAsm
 import FianoModel.Uefi.ExtractEdit
 import FianoModel.Uefi.ExtractParse
+import FianoModel.Uefi.ExtractTwiceFlash
+import FianoModel.Uefi.ExtractTwiceGram
+import FianoModel.Uefi.ExtractTwiceSample
+import FianoModel.Uefi.ExtractNvarPaths
+import FianoModel.Uefi.ExtractNvarLoad
+import FianoModel.Uefi.ExtractNvarNested
+import FianoModel.Uefi.ExtractNvarSample
+import FianoModel.Uefi.Lemmas.Final
 import FianoModel.Uefi.Spec
 import FianoModel.Uefi.Tie
 import FianoModel.Uefi.ExtractTie
@@ -76,16 +89,6 @@ theorem load_assemble_eq_direct_save (h : Hooks) (junk : FileInfo → Nat) (t : 
   simp only [parseDir_extract junk t hw]
   rw [asmWith_sim h (strip junk t) t {} (strip_sim junk t hok)]
   exact asmWith_fresh h t st hp
-
-/-- **C07a, as stated**: when saving is a fixed point on the tree (a second `Assemble` pass leaves the
-    root buffer as it is — the in-memory form of C06b, checked on every case by the harness oracle
-    `second-save-identical`), the directory round trip writes exactly what the direct
-    `utk IMAGE save OUT` writes. -/
-theorem extract_dirsave_eq_direct_save_partial (h : Hooks) (junk : FileInfo → Nat) (t : Tree) (st : St)
-    (hok : okTree t = true) (hw : pwTree t = true) (hp : st.pol = 0xF0 ∨ TopPol st.pol t = true)
-    (hfix : asmTwice h t st = asmWith h t st) :
-    extractSave h junk t = asmWith h t st := by
-  rw [extract_dirsave_eq_assemble_twice h junk t st hok hw hp, hfix]
 
 /-- the garbage in `File.Header.Size` is immaterial: any two values give the same image -/
 theorem junk_irrelevant (h : Hooks) (j1 j2 : FileInfo → Nat) (t : Tree)
@@ -178,9 +181,13 @@ theorem edit_depex (h : Hooks) (junk : FileInfo → Nat) (old new : List DepOp) 
   (`Hooks.none` does not). -/
 
 /-- **extract_paths_nodup**: for every byte string `uefi.Parse` accepts (flash image or bare BIOS
-    region, any decompressors), whatever was parsed — duplicate GUIDs inside a volume, across volumes,
-    across nesting levels, several volumes, nested volumes, gap regions — no two nodes are extracted
-    to the same path. -/
+    region, any decompressors, any NVAR hook), whatever was parsed — duplicate GUIDs inside a volume,
+    across volumes, across nesting levels, several volumes, nested volumes, gap regions, and (follow-up
+    wp-c07b) **NVAR stores**: every entry of the store of a RAW file, at any nesting depth, whatever the
+    variable names are — no two nodes are extracted to the same path.  (For a file that carries a store
+    `exFile` writes the NVar arm's files for the store C10's `NewNVarStore` model reads from the file's
+    own bytes under the volume's erase polarity; that its entries have distinct offsets is proved from
+    the parser, `parsed_offsDistinct`.) -/
 theorem extract_paths_nodup (h : Hooks) (bs : Bytes) (t : Tree) (hp : parse h bs = .ok t) :
     ((extractDir t).map Prod.fst).Nodup :=
   extractDir_nodup _ (parse_pw h bs t hp)
@@ -195,14 +202,6 @@ theorem roundtrip_parsed (h : Hooks) (hnv : ∀ x, h.nvarParse x = none) (junk :
   extract_dirsave_eq_assemble_twice h junk _ st (parse_okTree h hnv bs _ hp') (parse_pw h bs t hp')
     (parse_topPol h bs _ st hp)
 
-/-- **C07a, as stated, for every parsed image** — under the fixed-point hypothesis of save (see
-    `extract_dirsave_eq_direct_save_partial`): the directory round trip writes what `save` writes. -/
-theorem roundtrip_parsed_eq_direct_save_partial (h : Hooks) (hnv : ∀ x, h.nvarParse x = none) (junk : FileInfo → Nat)
-    (bs : Bytes) (t : Tree) (st : St) (hp : parseWith h (defaultFuel bs) bs {} = .ok (t, st))
-    (hfix : asmTwice h t st = asmWith h t st) :
-    extractSave h junk t = asmWith h t st := by
-  rw [roundtrip_parsed h hnv junk bs t st hp, hfix]
-
 /-- **C07b for every parsed image** and every edit that keeps GUIDs 16 bytes long -/
 theorem edit_parsed (h : Hooks) (hnv : ∀ x, h.nvarParse x = none) (junk : FileInfo → Nat) (e : Edit)
     (bs : Bytes) (t : Tree) (st : St) (hp : parseWith h (defaultFuel bs) bs {} = .ok (t, st))
@@ -214,6 +213,256 @@ theorem edit_parsed (h : Hooks) (hnv : ∀ x, h.nvarParse x = none) (junk : File
 
 /-- the hooks of the UEFI core model parse no NVAR store -/
 example : ∀ x, Hooks.none.nvarParse x = none := fun _ => rfl
+
+/-! ### follow-up wp-c07b (1): saving is a fixed point in memory — no hypothesis `asmTwice = asmWith`
+
+  `savedOkAll h t st` (Uefi/ExtractTwiceFlash.lean, `fxFv` in Uefi/ExtractTwiceMain.lean) is a decidable
+  side condition on the tree the first `Assemble` pass leaves behind: every volume with files, at any
+  depth, has a buffer no longer than its `Length` field (false only when `uefi.Align` wraps around 2^64
+  while a nested volume grows — buffers of 2^63 bytes, which no Go slice holds), `DataOffset ≥ 60` (the
+  header patches lie in the header part of the buffer), attribute bytes below 256 and re-laid files ending
+  below 2^62 (the range in which the file loop's 64-bit arithmetic is its closed form); in a flash image
+  no region has an empty span (Base ≤ Limit: the tiling check then orders the regions strictly, so the
+  second sort changes nothing).  It is vacuously true when the first pass fails.  No law about the codecs
+  is needed: the second pass re-encodes the same children; nothing is decoded. -/
+
+/-- **save is a fixed point in memory** (any tree — flash image or bare BIOS region —, any hooks, any
+    nesting depth, compressed sections included): assembling the tree `Assemble` has just written gives
+    the same root buffer; when the first pass fails both sides are that error -/
+theorem save_fixed_point_in_memory (h : Hooks) (t : Tree) (st : St) (hok : okTree t = true)
+    (hs : savedOkAll h t st = true) : asmTwice h t st = asmWith h t st :=
+  asmTwice_eq_asmWith h t st hok hs
+
+/-- **C07a as stated**: extract + reassemble from the directory in a fresh process writes exactly what
+    the direct `utk IMAGE save OUT` writes (errors included) -/
+theorem extract_dirsave_eq_direct_save (h : Hooks) (junk : FileInfo → Nat) (t : Tree) (st : St)
+    (hok : okTree t = true) (hw : pwTree t = true) (hp : st.pol = 0xF0 ∨ TopPol st.pol t = true)
+    (hs : savedOkAll h t st = true) :
+    extractSave h junk t = asmWith h t st := by
+  rw [extract_dirsave_eq_assemble_twice h junk t st hok hw hp, asmTwice_eq_asmWith h t st hok hs]
+
+/-- … for every byte string `uefi.Parse` accepts (flash image or bare BIOS region): the directory round
+    trip writes what `utk IMAGE save` (`save h bs`: parse, then one `Assemble` pass) writes -/
+theorem roundtrip_parsed_eq_direct_save (h : Hooks) (hnv : ∀ x, h.nvarParse x = none) (junk : FileInfo → Nat)
+    (bs : Bytes) (t : Tree) (st : St) (hp : parseWith h (defaultFuel bs) bs {} = .ok (t, st))
+    (hs : savedOkAll h t st = true) :
+    extractSave h junk t = asmWith h t st ∧ extractSave h junk t = save h bs := by
+  have hp' := parse_of_parseWith h bs _ st hp
+  have e := extract_dirsave_eq_direct_save h junk t st (parse_okTree h hnv bs _ hp') (parse_pw h bs _ hp')
+    (parse_topPol h bs _ st hp) hs
+  refine ⟨e, ?_⟩
+  rw [e]
+  unfold save
+  rw [hp]
+
+/-- **the side condition is derived for C01's grammar**: for every well-formed image of the reference
+    grammar (flash image with descriptor and any region layout, bare BIOS region; any volume count,
+    nesting depth, file and section kinds of C01 — no compressed sections) `savedOkAll` holds of what the
+    first pass writes.  (A structural induction over the grammar that applies C01's `asm_files` / `asm_fv`
+    at every nested volume: every file already sits where the placement rule puts it, so the closed-form
+    end of the re-laid files is the grammar's `endFiles`, nothing grows, everything is below 2^62.) -/
+theorem saved_ok_grammar (i : Spec.Img) (hwf : Spec.WF i) (st : St) (hp : st.pol = 0xFF) :
+    savedOkAll Hooks.none (Spec.tree i) st = true :=
+  savedOkAll_gram i hwf st hp
+
+/-- **save is a fixed point in memory, C01 grammar, unconditionally**: two `Assemble` passes over the
+    parsed tree of a well-formed image write the image — as one pass does (C01 `asm_tree`) -/
+theorem save_fixed_point_grammar (i : Spec.Img) (hwf : Spec.WF i) (st : St) (hp : st.pol = 0xFF) :
+    asmTwice Hooks.none (Spec.tree i) st = .ok (Spec.ser i) := by
+  obtain ⟨st0, hpw, _⟩ := parseWith_ser i hwf
+  have hok := parse_okTree Hooks.none (fun _ => rfl) (Spec.ser i) _ (parse_of_parseWith _ _ _ _ hpw)
+  rw [asmTwice_eq_asmWith Hooks.none _ st hok (savedOkAll_gram i hwf st hp)]
+  exact asm_tree_all i hwf st hp
+
+/-- **C07a for the C01 grammar, unconditionally**: for every well-formed image of the reference grammar,
+    extract followed by reassembly from the directory (fresh process, two `Assemble` passes) reproduces
+    the image byte for byte -/
+theorem roundtrip_grammar (i : Spec.Img) (hwf : Spec.WF i) (junk : FileInfo → Nat) :
+    extractSave Hooks.none junk (Spec.tree i) = .ok (Spec.ser i) := by
+  obtain ⟨st0, hpw, hp0⟩ := parseWith_ser i hwf
+  have := (roundtrip_parsed_eq_direct_save Hooks.none (fun _ => rfl) junk _ _ st0 hpw
+    (savedOkAll_gram i hwf st0 hp0)).1
+  rw [this]
+  exact asm_tree_all i hwf st0 hp0
+
+/-! ### follow-up wp-c07b (3): single-field edits, end to end
+
+  With the fixed point, C07b reads as the property states it: the reassembled image is the *direct
+  save* (one `Assemble` pass) of the tree with the field replaced in memory. -/
+
+/-- **C07b, end to end**, for any edit that keeps GUIDs 16 bytes long -/
+theorem extract_edit_dirsave_eq_direct (h : Hooks) (junk : FileInfo → Nat) (e : Edit) (t : Tree) (st : St)
+    (hok : okTree t = true) (hw : pwTree t = true)
+    (hp : st.pol = 0xF0 ∨ TopPol st.pol t = true) (he : e.Guid16)
+    (hs : savedOkAll h (edit e t) st = true) :
+    extractEditSave h junk e t = asmWith h (edit e t) st := by
+  rw [extract_edit_dirsave_eq h junk e _ st hok hw hp he]
+  exact asmTwice_eq_asmWith h _ st (okTree_edit e he _ hok) hs
+
+/-- **C07b end to end for every parsed image** -/
+theorem edit_parsed_direct (h : Hooks) (hnv : ∀ x, h.nvarParse x = none) (junk : FileInfo → Nat) (e : Edit)
+    (bs : Bytes) (t : Tree) (st : St) (hp : parseWith h (defaultFuel bs) bs {} = .ok (t, st))
+    (he : e.Guid16) (hs : savedOkAll h (edit e t) st = true) :
+    extractEditSave h junk e t = asmWith h (edit e t) st :=
+  have hp' := parse_of_parseWith h bs _ st hp
+  extract_edit_dirsave_eq_direct h junk e _ st (parse_okTree h hnv bs _ hp') (parse_pw h bs t hp')
+    (parse_topPol h bs _ st hp) he hs
+
+/-- what each single-field edit touches: exactly the nodes that hold `old` in that field -/
+theorem setGuid_touches (old new : Guid) (i : FileInfo) (s : SecInfo) :
+    (Edit.setGuid old new).file i = (if i.guid = old then { i with guid := new } else i) ∧
+      (Edit.setGuid old new).sec s = s := by
+  constructor
+  · simp only [Edit.file, Edit.setGuid]; split <;> rfl
+  · simp only [Edit.sec, Edit.setGuid, id]; repeat' split
+    all_goals rfl
+
+theorem setName_touches (old new : List Nat) (i : FileInfo) (s : SecInfo) :
+    (Edit.setName old new).file i = i ∧
+      (Edit.setName old new).sec s = (if s.type = 0x15 ∧ s.name = old then { s with name := new } else s) := by
+  obtain ⟨sz, ty, ex, fo, ts, nm, bd, vs, dx⟩ := s
+  refine ⟨rfl, ?_⟩
+  simp only [Edit.sec, Edit.setName, id]
+  repeat' split
+  all_goals simp_all
+
+theorem setVersion_touches (old new : Nat × List Nat) (i : FileInfo) (s : SecInfo) :
+    (Edit.setVersion old new).file i = i ∧
+      (Edit.setVersion old new).sec s =
+        (if s.type = 0x14 ∧ (s.build, s.version) = old then { s with build := new.1, version := new.2 } else s) := by
+  obtain ⟨sz, ty, ex, fo, ts, nm, bd, vs, dx⟩ := s
+  refine ⟨rfl, ?_⟩
+  simp only [Edit.sec, Edit.setVersion, id]
+  repeat' split
+  all_goals simp_all
+
+/-- a dependency expression is editable in all three section types: DXE (0x13), PEI (0x1B), MM (0x1C) -/
+theorem setDepex_touches (old new : List DepOp) (i : FileInfo) (s : SecInfo) :
+    (Edit.setDepex old new).file i = i ∧
+      (Edit.setDepex old new).sec s =
+        (if (s.type = 0x13 ∨ s.type = 0x1b ∨ s.type = 0x1c) ∧ s.depex = old then { s with depex := new } else s) := by
+  obtain ⟨sz, ty, ex, fo, ts, nm, bd, vs, dx⟩ := s
+  refine ⟨rfl, ?_⟩
+  simp only [Edit.sec, Edit.setDepex, id, isDepexType]
+  by_cases h0 : ty = 21
+  · simp [h0]
+  by_cases h1 : ty = 20
+  · simp [h1]
+  by_cases h2 : (ty = 19 ∨ ty = 27) ∨ ty = 28
+  · have h2' : ty = 19 ∨ ty = 27 ∨ ty = 28 := by omega
+    by_cases h3 : dx = old <;> simp [h0, h1, h2, h2', h3]
+  · have h2' : ¬ (ty = 19 ∨ ty = 27 ∨ ty = 28) := by omega
+    simp [h0, h1, h2, h2']
+
+/-- C07b end to end, the GUID of a file rebuilt from its sections -/
+theorem edit_file_guid_direct (h : Hooks) (junk : FileInfo → Nat) (old new : Guid) (t : Tree) (st : St)
+    (hok : okTree t = true) (hw : pwTree t = true) (hp : st.pol = 0xF0 ∨ TopPol st.pol t = true)
+    (hn : new.length = 16) (hs : savedOkAll h (edit (Edit.setGuid old new) t) st = true) :
+    extractEditSave h junk (Edit.setGuid old new) t = asmWith h (edit (Edit.setGuid old new) t) st :=
+  extract_edit_dirsave_eq_direct h junk _ t st hok hw hp (Edit.setGuid_guid16 old new hn) hs
+
+/-- C07b end to end, a UI name -/
+theorem edit_ui_name_direct (h : Hooks) (junk : FileInfo → Nat) (old new : List Nat) (t : Tree) (st : St)
+    (hok : okTree t = true) (hw : pwTree t = true) (hp : st.pol = 0xF0 ∨ TopPol st.pol t = true)
+    (hs : savedOkAll h (edit (Edit.setName old new) t) st = true) :
+    extractEditSave h junk (Edit.setName old new) t = asmWith h (edit (Edit.setName old new) t) st :=
+  extract_edit_dirsave_eq_direct h junk _ t st hok hw hp (Edit.noGuid_guid16 _ rfl) hs
+
+/-- C07b end to end, a version string / build number -/
+theorem edit_version_direct (h : Hooks) (junk : FileInfo → Nat) (old new : Nat × List Nat) (t : Tree) (st : St)
+    (hok : okTree t = true) (hw : pwTree t = true) (hp : st.pol = 0xF0 ∨ TopPol st.pol t = true)
+    (hs : savedOkAll h (edit (Edit.setVersion old new) t) st = true) :
+    extractEditSave h junk (Edit.setVersion old new) t = asmWith h (edit (Edit.setVersion old new) t) st :=
+  extract_edit_dirsave_eq_direct h junk _ t st hok hw hp (Edit.noGuid_guid16 _ rfl) hs
+
+/-- C07b end to end, a dependency expression (DXE, PEI and MM depex sections alike) -/
+theorem edit_depex_direct (h : Hooks) (junk : FileInfo → Nat) (old new : List DepOp) (t : Tree) (st : St)
+    (hok : okTree t = true) (hw : pwTree t = true) (hp : st.pol = 0xF0 ∨ TopPol st.pol t = true)
+    (hs : savedOkAll h (edit (Edit.setDepex old new) t) st = true) :
+    extractEditSave h junk (Edit.setDepex old new) t = asmWith h (edit (Edit.setDepex old new) t) st :=
+  extract_edit_dirsave_eq_direct h junk _ t st hok hw hp (Edit.noGuid_guid16 _ rfl) hs
+
+/-- the edited field reaches the image: an MM depex section (type 0x1C) is regenerated from its
+    decoded opcodes like a DXE or PEI one (seeded defect c07-2 removed exactly this) -/
+theorem mm_depex_regenerated (i : SecInfo) (ht : i.type = 0x1c) :
+    regenLeaf i = (match encodeDepEx i.depex with | some b => .ok (some b) | none => .error .err) := by
+  unfold regenLeaf
+  rw [if_neg (by rw [ht]; decide), if_neg (by rw [ht]; decide), if_pos (by rw [ht]; decide)]
+  rfl
+
+/-! ### follow-up wp-c07b (2): NVAR stores (model: Uefi/ExtractNvar.lean on C10's store model) -/
+
+/-- **`extract_paths_nodup` for NVAR stores**: the paths written for the store of a RAW file — at
+    every nesting depth, whatever the variable names are (equal names, names equal in their first 64
+    bytes, `/`, `..`, links, invalid entries) — are pairwise distinct, given that the entries of a store
+    have pairwise distinct offsets -/
+theorem extract_paths_nodup_nvar (d pol : Nat) (dir : List Comp) (hdir : ∀ c ∈ dir, SlashFree c) (i : FileInfo)
+    (idx : Nat) (s : Nvram.Store) (ho : OffsDistinct d pol s.entries) :
+    (((nvFileEntries d pol dir i idx s).map flat).map Prod.fst).Nodup :=
+  nvFileEntries_nodup d pol dir hdir i idx s ho
+
+/-- what `Extract` writes for a RAW file that carries a store: the files of the NVar arm for the store
+    read from the file's own bytes, below `DIR/…/<file GUID>/<index>` -/
+theorem extract_nvar_file (pol : Nat) (dir : List Comp) (idx : Nat) (i : FileInfo) (buf : Bytes) (secs : List Section)
+    (nv : NvStore) (hn : i.nvar = some nv) :
+    exFile pol dir idx (.mk i buf secs) =
+      (match Nvram.parseStore pol (buf.drop i.dataOffset) with
+       | .ok s => nvFileEntries (Nvram.depthFuel s) pol dir i idx s
+       | .error _ => []) := by
+  simp only [exFile, hn, nvOfFile, nvFileEntries]
+  cases Nvram.parseStore pol (buf.drop i.dataOffset) <;> rfl
+
+/-- every one of them lies strictly below the directory of the file (`DIR/…/GUID/index`): nothing is
+    written outside it -/
+theorem nvar_paths_below_file_dir (d pol : Nat) (dir : List Comp) (i : FileInfo) (idx : Nat) (s : Nvram.Store) :
+    ∀ e ∈ nvFileEntries d pol dir i idx s, Ext (fileDir dir i idx) e.1 :=
+  nvEntries_below d pol (fileDir dir i idx) s.entries
+
+/-- **directory round trip of a store** (no nested store, names valid UTF-8): `Assemble` on what
+    `ParseDir` rebuilds is `Assemble` on the parsed store -/
+theorem nvar_dir_roundtrip (pol : Nat) (rec : Nvram.Store → Except Nvram.Err Nvram.Store) (s : Nvram.Store)
+    (hn : ∀ v ∈ s.entries, validUtf8 v.name = true) :
+    Nvram.asmStoreWith pol rec { s with entries := nvLoadAll s.entries, buf := [] } = Nvram.asmStoreWith pol rec s :=
+  asmStoreWith_load pol rec s hn
+
+/-- **directory round trip of a store, nested stores included** (any depth): `Assemble` on the tree
+    `ParseDir` loads — a valid entry whose value is a store has the buffer `make([]byte, DataOffset)` and
+    takes its content from the assembled `NVarStore` child summary.json recorded for it — does exactly
+    what C10's `asmStore` does on the parsed store, errors included, when every name at every level is
+    valid UTF-8 -/
+theorem nvar_dir_roundtrip_nested (pol d : Nat) (s : Nvram.Store) (hu : Utf8Deep d pol s.entries) :
+    asmDirStore pol d s = Nvram.asmStore pol d s :=
+  asmDirStore_eq pol d s hu
+
+/-- non-vacuity of `Utf8Deep`: a store with an ASCII name and no nested store -/
+example : Utf8Deep 2 0xFF [{ f1Var with name := [0x41] }] :=
+  ⟨by decide, fun v hv ns hns => by
+    simp only [List.mem_singleton] at hv
+    subst hv
+    have hnone : Nvram.nestedOf 0xFF { f1Var with name := [0x41] } = none := by decide
+    rw [hnone] at hns
+    cases hns⟩
+
+/-- **F-C07-1** (known finding, kept as the explicit exception): a CHAR8 name that is not valid UTF-8
+    comes back from summary.json as U+FFFD and the reloaded entry is refused -/
+theorem nvar_nonutf8_name_not_reloadable :
+    validUtf8 f1Var.name = false ∧ jsonName f1Var.name = [0xEF, 0xBF, 0xBD] ∧
+      (Nvram.asmNVar 0xFF f1Var (Nvram.content f1Var) true).toOption.isSome = true ∧
+      (Nvram.asmNVar 0xFF (nvLoad f1Var (Nvram.content f1Var)) (Nvram.content f1Var) true).toOption.isSome = false :=
+  f_c07_1_witness
+
+/-- non-vacuity of the NVAR part of `extract_paths_nodup`: a parsed image whose RAW file carries a
+    store with two variables of one name; `Extract` writes `…/A-0x0.bin` and `…/A-0xe.bin` -/
+theorem sample_nvar_holds : NvSample.bytes.length = 184 ∧ NvSample.holds = true := NvSample.sample_nvar_holds
+
+/-- the hypothesis `OffsDistinct` holds of every store `NewNVarStore` returns -/
+theorem nvar_parsed_offsets_distinct (pol d : Nat) (b : Bytes) (s : Nvram.Store) (hp : Nvram.parseStore pol b = .ok s) :
+    OffsDistinct d pol s.entries := parsed_offsDistinct pol d b s hp
+
+/-- non-vacuity: two entries of one name at different offsets -/
+example : OffsDistinct 1 0xFF [f1Var, { f1Var with offset := 14 }] :=
+  ⟨by decide, fun _ _ _ _ => trivial⟩
+example : validUtf8 [0x41, 0xC3, 0xA9] = true := by decide
 
 /-! ### the hypotheses are inhabited -/
 
@@ -247,12 +496,18 @@ def sampleBytes : Bytes := Spec.ser sampleImg
 def sampleHolds : Bool :=
   match parseWith Hooks.none (defaultFuel sampleBytes) sampleBytes {} with
   | .ok (t, st) =>
-    pwTree t && okTree t && TopPol st.pol t && (extractDir t).length == 20 &&
+    pwTree t && okTree t && TopPol st.pol t && savedOkAll Hooks.none t st && (extractDir t).length == 20 &&
       (match extractSave Hooks.none goJunk t with
        | .ok out => out == sampleBytes
        | .error _ => false)
   | .error _ => false
 
 theorem sample_holds : Spec.wf sampleImg = true ∧ sampleHolds = true := by decide +kernel
+
+/-- the same for a 16 KiB flash image with descriptor, ME region, gap and BIOS region (an MM depex
+    section inside): every hypothesis of the theorems above, `savedOkAll` included, holds and the
+    directory round trip returns the image (Uefi/ExtractTwiceSample.lean) -/
+theorem sample_flash_holds : TwiceSample.sampleBytes.length = 16384 ∧ TwiceSample.sampleFlashHolds = true :=
+  TwiceSample.sample_flash_holds
 
 end Fiano.Uefi.C07
